@@ -1,4 +1,5 @@
 """C01 — Accepted programs never go wrong: the checker/evaluator agreement clause."""
+import json
 from facts import hir_walk, callee_def, callee_of, variant_of
 from absint import TRUE, FALSE, UNK
 from positions import Pos, overlap
@@ -241,6 +242,40 @@ def closure_sets(c, T, ck):
     return summable, referenceable, rec_decl, rec_expr
 
 
+def marker_guard_includes_reference(facts):
+    """False when every construction of the in-progress marker (Expr::Recursion) in eval_declaration is guarded by
+    `is_recursive` alone (a match-arm guard or the then-branch of an `if` without `||`): then only the declarations that
+    cycles_check marked can evaluate to the marker.  True when the nearest guard that mentions `is_recursive` also admits
+    `is_reference()` (`ident.is_reference() || core.is_recursive`), or when the shape cannot be read."""
+    fn = facts.fn('oal_compiler::eval::eval_declaration')
+    if fn is None or not fn.hir:
+        return True
+    verdicts = []
+    for f2 in facts.family(fn):
+        if not f2.hir:
+            continue
+        for e, anc in hir_walk(f2.hir['body']):
+            isctor = (e['k'] == 'call' and (callee_def(e) or '').endswith('Expr::Recursion')) or \
+                     (e['k'] == 'path' and variant_of(e.get('p')) == 'Recursion')
+            if not isctor:
+                continue
+            verdict = None
+            for parent, lab in reversed(anc):
+                cond = None
+                if isinstance(lab, tuple) and lab[0] == 'arm' and lab[1]['guard'] is not None:
+                    cond = lab[1]['guard']
+                elif isinstance(lab, tuple) and lab[0] == 'then':
+                    cond = lab[1]['cond']
+                if cond is None:
+                    continue
+                txt = json.dumps(cond)
+                if '"is_recursive"' in txt:
+                    verdict = ('"Or"' in txt) or ('is_reference' in txt)
+                    break
+            verdicts.append(True if verdict is None else verdict)
+    return True if not verdicts else any(verdicts)
+
+
 def r1_agree(c, facts, T):
     R = c.rule('C01.R1', 'AGREE-POS: at every cast position, VT(tag) is a subset of Accept(cast) for every admitted tag')
     vt0, kt, kc, ev = T.value_typing()
@@ -266,6 +301,11 @@ def r1_agree(c, facts, T):
         'abstract_interpreter_unknowns': T.it.unknowns + T.ie.unknowns,
     }
     toplevel = {('Resource', 'relation')}
+    # the in-progress marker of eval_declaration (Expr::Recursion) is handed out for every declaration that enters the
+    # marker protocol: the recursive ones (cycles_check) and - when the guard says so - every @reference, whatever its
+    # tag: a reference on a cycle that is cut at *another* definition is met again while it is being evaluated
+    marker_on_reference = marker_guard_includes_reference(facts)
+    c.extra['tables']['marker_on_reference'] = marker_on_reference
 
     def vt(tag, pos):
         s = set(vt0.get(tag, ()))
@@ -273,7 +313,7 @@ def r1_agree(c, facts, T):
             s.add('VariadicOp')
         if tag in referenceable or tag in recursible:
             s.add('Reference')
-        if tag in recursible and pos not in toplevel:
+        if (tag in recursible or (marker_on_reference and tag in referenceable)) and pos not in toplevel:
             s.add('Recursion')
         if tag == 'Func':
             s.add('Lambda')
@@ -653,6 +693,8 @@ def run(c, facts):
     import c09 as _c09
     c.run(lambda c: _c09.r9_mark_monotone(c, facts, rule='C01.R14'))
     import c02 as _c02
+    R15 = c.rule('C01.R15', 'REF-TRANSPARENT: a cast that takes Expr::Reference recurses into the referenced value with the same cast - R1 counts `Reference` as accepted on that ground (a reference to a reference, or to a recursive declaration, is legal) (shared with C02.R8)')
+    c.shared(R15, _c02.r8_ref_transparent, 'C02.R8', facts)
     R13 = c.rule('C01.R13', 'CONCAT-PATH: concat keeps the whole right path, so the "a path has at least one segment" invariant that Uri::append unwraps holds for every accepted program (shared with C02.R12)')
     c.shared(R13, _c02.r12_combine, 'C02.R12', facts)
     c.rule('C01.R0', 'anchors: Tag, Expr, inference::tag, eval_any, constrain present')
